@@ -7,7 +7,7 @@ ID=$(basename "$D")
 WT=$(mktemp -d /tmp/ts-$ID-XXXX); SV=$(mktemp -d /tmp/tsv-$ID-XXXX)
 git -C /repo worktree add -q --detach "$WT" HEAD || exit 2
 trap 'git -C /repo worktree remove --force "$WT" 2>/dev/null; rm -rf "$WT" "$SV"' EXIT
-git -C "$WT" apply "$D/patch.diff" || { echo "$ID: patch does not apply"; exit 2; }
+git -C "$WT" apply "$D/patch.diff" 2>/dev/null || git -C "$WT" apply --3way "$D/patch.diff" 2>/dev/null || { echo "$ID: patch does not apply"; exit 2; }
 ln -s /verif/checker "$SV/checker"; cp /verif/known_findings.json "$SV/"
 PROPS="$@"; [ -z "$PROPS" ] && PROPS=$(/verif/bin/hrverif list | cut -d' ' -f1)
 for P in $PROPS; do
